@@ -273,6 +273,180 @@ where
     hash_to_scalar::<CS>(&c, &[api, CS::H2S].concat()).unwrap()
 }
 
+/// A proof assembled by a HOLDER who knows a valid signature `(A, e)` on the scalar vector `m` over the
+/// generator list `hs` (one generator per position, `q1`/`p1` as usual) but who chooses freely which
+/// (index, message) pairs to CLAIM as disclosed (`claim_idx`, `claim_msgs`: hashed into the challenge) and
+/// which positions get a response (`resp`). Every response is computed correctly for the true `m`.
+/// The verification equation holds iff `B = P1 + Q1*domain + sum_{claimed and bound} H_i m'_i + sum_{resp} H_j m_j`.
+pub fn crafted_holder_proof<CS: BbsCiphersuite>(
+    h: &mut H,
+    a: &G1Projective,
+    e: &Scalar,
+    p1: &G1Projective,
+    q1: &G1Projective,
+    hs: &[G1Projective],
+    domain: &Scalar,
+    m: &[Scalar],
+    claim_idx: &[usize],
+    claim_msgs: &[Vec<u8>],
+    resp: &[usize],
+    ph: Option<&[u8]>,
+    api: &[u8],
+) -> Vec<u8>
+where
+    CS::Expander: for<'a> ExpandMsg<'a>,
+{
+    let rs = |h: &mut H| {
+        let mut arr = [0u8; 32];
+        arr.copy_from_slice(&rand_scalar_bytes(h));
+        Scalar::from_be_bytes(&arr).unwrap()
+    };
+    let (r1, r2, et, r1t, r3t) = (rs(h), rs(h), rs(h), rs(h), rs(h));
+    let mt: Vec<Scalar> = resp.iter().map(|_| rs(h)).collect();
+    let r3 = r2.invert().unwrap();
+    let mut b = *p1 + *q1 * *domain;
+    for (i, mi) in m.iter().enumerate() {
+        b += hs[i] * *mi;
+    }
+    let d = b * r2;
+    let abar = *a * (r1 * r2);
+    let bbar = d * r1 - abar * *e;
+    let t1 = abar * et + d * r1t;
+    let mut t2 = d * r3t;
+    for (k, &j) in resp.iter().enumerate() {
+        t2 += hs[j] * mt[k];
+    }
+    let c = challenge::<CS>(claim_idx, claim_msgs, [&abar, &bbar, &d, &t1, &t2], domain, ph, api);
+    let mut out = Vec::new();
+    for p in [&abar, &bbar, &d] {
+        out.extend_from_slice(&p.to_affine().to_compressed());
+    }
+    out.extend_from_slice(&(et + *e * c).to_be_bytes());
+    out.extend_from_slice(&(r1t - r1 * c).to_be_bytes());
+    out.extend_from_slice(&(r3t - r3 * c).to_be_bytes());
+    for (k, &j) in resp.iter().enumerate() {
+        out.extend_from_slice(&(mt[k] + m[j] * c).to_be_bytes());
+    }
+    out.extend_from_slice(&c.to_be_bytes());
+    out
+}
+
+/// domain exactly as the verifier computes it over an explicit generator list
+pub fn domain_over<CS: BbsCiphersuite>(pk: &BBSplusPublicKey, q1: &G1Projective, hs: &[G1Projective], hdr: Option<&[u8]>, api: &[u8]) -> Scalar
+where
+    CS::Expander: for<'a> ExpandMsg<'a>,
+{
+    let header = hdr.unwrap_or(b"");
+    let mut dom: Vec<u8> = Vec::new();
+    dom.extend_from_slice(&pk.to_bytes());
+    dom.extend_from_slice(&i2osp::<8>(hs.len()));
+    dom.extend_from_slice(&q1.to_affine().to_compressed());
+    for p in hs {
+        dom.extend_from_slice(&p.to_affine().to_compressed());
+    }
+    dom.extend_from_slice(api);
+    dom.extend_from_slice(&i2osp::<8>(header.len()));
+    dom.extend_from_slice(header);
+    hash_to_scalar::<CS>(&dom, &[api, CS::H2S].concat()).unwrap()
+}
+
+/// Holder-side forgeries: a holder of a GENUINE signature tries to get a statement accepted that the
+/// issuer never signed (an extra disclosed message bound to no generator, a false disclosed value, a
+/// hidden position without response). The crafted prover is validated first on the honest statement.
+fn holder_forgeries<CS: BbsCiphersuite>(h: &mut H)
+where
+    CS::Expander: for<'a> ExpandMsg<'a>,
+{
+    let (sk, pk) = rand_keypair::<CS>(h);
+    for l in [1usize, 3, 4] {
+        let msgs = distinct_msgs(h, l);
+        let hdr = rand_header(h);
+        let ph = rand_header(h);
+        // ---- plain interface
+        if let Some(sig) = sign::<CS>(h, &sk, &pk, hdr.as_deref(), Some(&msgs)).ok() {
+            let api = CS::API_ID;
+            let gens = Generators::create::<CS>(l + 1, Some(api));
+            let (q1, hs) = (gens.values[0], gens.values[1..].to_vec());
+            let dom = domain_over::<CS>(&pk, &q1, &hs, hdr.as_deref(), api);
+            let m: Vec<Scalar> = BBSplusMessage::messages_to_scalar::<CS>(&msgs, api).unwrap().iter().map(|x| x.value).collect();
+            let (a, e) = (sig.a(), sig.e());
+            let d: Vec<usize> = vec![0];
+            let hidden: Vec<usize> = (1..l).collect();
+            let dm = vec![msgs[0].clone()];
+            let mut run = |h: &mut H, class: &str, ci: &[usize], cm: &[Vec<u8>], resp: &[usize], want_ok: bool| {
+                let pb = crafted_holder_proof::<CS>(h, &a, &e, &gens.g1_base_point, &q1, &hs, &dom, &m, ci, cm, resp, ph.as_deref(), api);
+                h.stat(&format!("C04.holder.{}", class));
+                if let Ok(p) = Pok::<CS>::from_bytes(&pb) {
+                    let v = proofverify::<CS>(h, &pk, &p, hdr.as_deref(), ph.as_deref(), Some(cm), Some(ci));
+                    if want_ok {
+                        h.expect(v.is_ok(), "C04.holder_selfcheck", "the crafted holder proof of an honest statement is rejected (harness prover wrong?)", &[h.last()]);
+                    } else {
+                        h.expect(!v.is_ok(), &format!("C04.holder_{}", class), "a holder of a genuine signature got an unsigned statement accepted", &[h.last()]);
+                    }
+                }
+            };
+            run(h, "honest", &d, &dm, &hidden, true);
+            // an extra disclosed pair at the first position past the end, and further out
+            for extra in [l, l + 1, l + 7] {
+                let mut ci = d.clone();
+                ci.push(extra);
+                let mut cm = dm.clone();
+                cm.push(b"never signed".to_vec());
+                run(h, "extra_past_end", &ci, &cm, &hidden, false);
+                if !hidden.is_empty() {
+                    run(h, "extra_past_end_one_response_less", &ci, &cm, &hidden[..hidden.len() - 1], false);
+                }
+            }
+            // a false value at a disclosed position; a hidden position left without response
+            run(h, "false_disclosed_value", &d, &[b"not the signed message".to_vec()], &hidden, false);
+            if !hidden.is_empty() {
+                run(h, "response_missing", &d, &dm, &hidden[1..], false);
+            }
+        }
+        // ---- blind interface, signature issued WITHOUT commitment: position L carries the prover blind 0
+        if let Some(bs) = blindsign::<CS>(h, &sk, &pk, None, hdr.as_deref(), Some(&msgs)).ok() {
+            let api = CS::API_ID_BLIND;
+            let gens = Generators::create::<CS>(l + 1, Some(api));
+            let bgens = Generators::create::<CS>(1, Some(&[b"BLIND_", api].concat()));
+            let q1 = gens.values[0];
+            let mut hs: Vec<G1Projective> = gens.values[1..].to_vec();
+            hs.push(bgens.values[0]);
+            let dom = domain_over::<CS>(&pk, &q1, &hs, hdr.as_deref(), api);
+            let mut m: Vec<Scalar> = BBSplusMessage::messages_to_scalar::<CS>(&msgs, api).unwrap().iter().map(|x| x.value).collect();
+            m.push(Scalar::ZERO);
+            let sg = bs.bbsPlusBlindSignature().clone();
+            let (a, e) = (sg.A, sg.e);
+            let d: Vec<usize> = vec![0];
+            let dm = vec![msgs[0].clone()];
+            let hidden: Vec<usize> = (1..l + 1).collect(); // includes the blind position L
+            let mut runb = |h: &mut H, class: &str, ci: &[usize], cm: &[Vec<u8>], cci: &[usize], ccm: &[Vec<u8>], resp: &[usize], want_ok: bool| {
+                let mut all_i: Vec<usize> = ci.to_vec();
+                all_i.extend(cci.iter().map(|j| j + l + 1));
+                let mut all_m: Vec<Vec<u8>> = cm.to_vec();
+                all_m.extend(ccm.iter().cloned());
+                let pb = crafted_holder_proof::<CS>(h, &a, &e, &gens.g1_base_point, &q1, &hs, &dom, &m, &all_i, &all_m, resp, ph.as_deref(), api);
+                h.stat(&format!("C04.holder_blind.{}", class));
+                if let Ok(p) = Pok::<CS>::from_bytes(&pb) {
+                    let v = blindproofverify::<CS>(h, &pk, &p, hdr.as_deref(), ph.as_deref(), Some(l), Some(cm), Some(ccm), Some(ci), Some(cci));
+                    if want_ok {
+                        h.expect(v.is_ok(), "C04.holder_blind_selfcheck", "the crafted holder proof of an honest blind statement is rejected (harness prover wrong?)", &[h.last()]);
+                    } else {
+                        h.expect(!v.is_ok(), &format!("C04.holder_blind_{}", class), "a holder of a genuine blind signature got an unsigned statement accepted", &[h.last()]);
+                    }
+                }
+            };
+            runb(h, "honest", &d, &dm, &[], &[], &hidden, true);
+            // claim a disclosed COMMITTED message (commitment index 0 -> position L+1, one past the end) that
+            // was never committed; the prover blind (0) at position L is left without response
+            let forged = vec![b"never committed".to_vec()];
+            runb(h, "claimed_committed_message", &d, &dm, &[0], &forged, &hidden[..hidden.len() - 1], false);
+            runb(h, "claimed_committed_message_all_responses", &d, &dm, &[0], &forged, &hidden, false);
+            runb(h, "claimed_committed_message_far", &d, &dm, &[3], &forged, &hidden[..hidden.len() - 1], false);
+            runb(h, "blind_response_missing", &d, &dm, &[], &[], &hidden[..hidden.len() - 1], false);
+        }
+    }
+}
+
 /// Degenerate-element forgeries assembled from public information only (DESIGN F1).
 fn forgeries<CS: BbsCiphersuite>(h: &mut H)
 where
@@ -353,6 +527,7 @@ where
 {
     let thorough = h.tier_thorough;
     forgeries::<CS>(h);
+    holder_forgeries::<CS>(h);
     let nproofs = if thorough { 8 } else { 2 };
     for k in 0..nproofs {
         let (sk, pk) = rand_keypair::<CS>(h);
